@@ -125,7 +125,15 @@ def run_check(pid, tier, seed, args, t0):
         if r['status'] == 'REFUTED':
             for name, o in obls.items():
                 if o['status'] == 'refuted' and o['kind'] in ('ensures', 'exsures', 'frame', 'callee-pre', 'lemma'):
-                    violations.append(make_violation(pid, ident, name, o, RP, len(violations)))
+                    v = make_violation(pid, ident, name, o, RP, len(violations))
+                    if v.get('replay_status') == 'ok' and uses_uninterpreted(ident):
+                        # the counter-model interprets an uninterpreted function (COS, ARCTAN, ...) in a way the real function does not behave:
+                        # the real code, run on the model's input, satisfied every clause.  Not confirmed => undecided, the bounded tier decides.
+                        downgraded.append({'function': ident, 'status': 'COUNTER-MODEL-NOT-CONFIRMED',
+                                           'detail': 'z3 refuted %s with %s, but the real code satisfies the contract on that input (abstraction of elementary functions)' % (name, o.get('model')),
+                                           'lost': [name]})
+                    else:
+                        violations.append(v)
         elif r['status'] in ('UNDECIDED', 'UNSUPPORTED', 'ERROR'):
             # a failed proof is undecided, not a violation (DESIGN 3.1); obligations the baseline had proved are downgraded
             lost = sorted(base_names - set(n for n, o in obls.items() if o['status'] == 'proved')) if base_names else ['<all>']
@@ -273,15 +281,28 @@ def make_violation(pid, ident, name, o, RP, k):
            'solver': {'status': 'sat (obligation refuted)', 'backend': o.get('backend'), 'model_parameters': o.get('model'), 'note': o.get('note', '')},
            'counterexample': o.get('counterexample'), 'tree': git_head(SRC.REPO)}
     reproduced = False
+    replay_status = None
     if o.get('counterexample') and not ident.startswith('lemma::'):
         out = RP.run(ident, o['counterexample'])
         rec['replay_result'] = out
         reproduced = bool(out.get('reproduced'))
+        replay_status = out.get('status')
     rec['reproduced'] = reproduced
     with open(path, 'w') as f:
         json.dump(rec, f, indent=1, default=str)
     return {'obligation': name, 'function': ident, 'clause': o.get('clause', ''), 'replay': path, 'reproduced': reproduced,
-            'key': '%s#%s' % (ident, name)}
+            'key': '%s#%s' % (ident, name), 'replay_status': replay_status}
+
+
+def uses_uninterpreted(ident):
+    from pyvc import api
+    con = api.REGISTRY.get(ident)
+    if con is None:
+        return False
+    texts = list(con.ensures) + [str(v) for v in con.exsures.values()]
+    for cs in con.callees.values():
+        texts += [str(x) for x in cs.get('ensures', [])]
+    return any('ufn(' in t for t in texts)
 
 
 def match_known(known, pid, v):
